@@ -36,8 +36,8 @@ def logs(pattern):
         try: out += open(f, errors='replace').read()
         except OSError: pass
     return out
-confirm = logs('/tmp/seed_confirm.log')
-checks = logs('/tmp/seed_check*.log') + logs('/tmp/c12_mode3.log')
+confirm = logs('/tmp/seed_confirm2.log')
+checks = logs('/tmp/seed_check*.log') + logs('/tmp/c12_mode3.log') + logs('/tmp/seed_extra.log')
 for sid, src, prop, needs, remark in SEEDS:
     sdir = '/tmp/seed/' + src
     if not os.path.isdir(sdir): continue
@@ -46,7 +46,9 @@ for sid, src, prop, needs, remark in SEEDS:
     for m in re.finditer(r'^(%s\w*) (C\d+) rc=(\d+) wall=(\d+)s violations=(\d+) inconclusive=(\d+)' % re.escape(key), checks, re.M):
         runs.append({'run': m.group(1), 'check': m.group(2), 'exit': int(m.group(3)), 'violations': int(m.group(5)), 'inconclusive': int(m.group(6))})
     caught = sorted(set(r['check'] for r in runs if r['exit'] == 1 and r['violations'] > 0))
-    missed = sorted(set(r['check'] for r in runs if r['exit'] == 0))
+    own = [r for r in runs if r['check'] == prop]
+    own_caught = any(r['exit'] == 1 and r['violations'] > 0 for r in own)
+    own_missed_first = any(r['exit'] != 1 for r in own)
     cm = re.search(r'^%s: demo clean rc=(\d+), patched rc=(\d+); baseline with patch: (.*)$' % re.escape(sdir), confirm, re.M)
     meta = {
         'property': prop, 'author': 'independent sub-agent (%s) that saw only the property text' % src.split('/')[0],
@@ -57,8 +59,8 @@ for sid, src, prop, needs, remark in SEEDS:
                        'tools/seed_check.sh %s %s/patch.diff <checks>   (git apply in a scratch worktree of /repo HEAD, ./check <id> --tier quick with VF_REPO, worktree removed)' % (key, sdir)],
         'check_runs': runs,
         'caught_by': ', '.join(caught),
-        'verdict': ('caught' if caught and not (set(missed) & {prop}) else 'caught after strengthening' if caught and prop in caught else
-                    'caught by another check (%s), not by %s' % (', '.join(caught), prop) if caught else 'not caught' if runs else 'not run'),
+        'verdict': ('caught after strengthening the check' if own_caught and own_missed_first else 'caught' if own_caught else
+                    'caught by %s (same mechanism), not by %s' % (', '.join(caught), prop) if caught else 'not caught' if runs else 'not run'),
         'remark': remark,
     }
     subprocess.check_call([os.path.join(ROOT, 'tools', 'mk_seed.py'), sid, sdir, json.dumps(meta)], stdout=subprocess.DEVNULL)
